@@ -64,7 +64,8 @@ type sysRun struct {
 	Objs     []sysObj          `json:"objs"`
 	Opts     sysOpts           `json:"opts"`
 	FailMut  []int             `json:"failMut,omitempty"`
-	FailRead []int             `json:"failRead,omitempty"`
+	FailInvRead []int          `json:"failInvRead,omitempty"` // n-th LIST of the inventory objects fails
+	FailGet  []jid             `json:"failGet,omitempty"`     // every GET of these objects fails
 	Ctrl     map[string]string `json:"ctrl,omitempty"` // id key -> current | stale | never | failed | failed-current | replaced
 	Del      map[string]string `json:"del,omitempty"`  // id key -> gone | finalizer | finalizer-gone
 	Cancel   string            `json:"cancel,omitempty"`
@@ -435,13 +436,12 @@ func takeSnapshot(c *fakecluster.Cluster) snapshot {
 
 type runOut struct {
 	Events   [][]any   `json:"events"`
-	Muts     [][]any   `json:"muts"`  // mutating requests: [verb, id, dryRun, precondUID, propagation, result, rejected, snapshot-after]
+	Muts     [][]any   `json:"muts"`  // mutating requests: [verb, id, dryRun, precondUID, propagation, result, rejected, #events-before, snapshot-after]
 	Final    snapshot  `json:"final"` // after the channel closed
 	Closed   bool      `json:"closed"`
 	Late     int       `json:"late"` // requests after close
 	Anomaly  string    `json:"anomaly,omitempty"`
 	Panic    string    `json:"panic,omitempty"`
-	Snaps    []snapshot `json:"-"`
 }
 
 const sysTimeout = 250 * time.Millisecond
@@ -461,8 +461,22 @@ func runOne(c *fakecluster.Cluster, run sysRun) (out runOut) {
 	for _, k := range run.FailMut {
 		c.FailMut[k] = true
 	}
-	for _, k := range run.FailRead {
-		c.FailRead[k] = true
+	c.FailReq = func(r *fakecluster.Req) bool {
+		if r.Verb == "list" {
+			for _, k := range run.FailInvRead {
+				if k == r.ListIdx {
+					return true
+				}
+			}
+		}
+		if r.Verb == "get" {
+			for _, j := range run.FailGet {
+				if k, ok := keyOf(j); ok && k == r.Key {
+					return true
+				}
+			}
+		}
+		return false
 	}
 	for idk, b := range run.Del {
 		if strings.HasPrefix(b, "finalizer") {
@@ -508,22 +522,36 @@ func runOne(c *fakecluster.Cluster, run sysRun) (out runOut) {
 	var mu sync.Mutex
 	stop := make(chan struct{})
 	var stopOnce sync.Once
+	cancelMut := -1
 	if strings.HasPrefix(run.Cancel, "mut:") {
-		var k int
-		fmt.Sscanf(run.Cancel, "mut:%d", &k)
-		c.Before = func(r *fakecluster.Req) {
-			if r.Mutating && r.MutIdx == k {
-				cancel()
-				time.Sleep(20 * time.Millisecond) // let the runner observe the cancellation while the request is in flight
-			}
+		fmt.Sscanf(run.Cancel, "mut:%d", &cancelMut)
+	}
+	// barrier: accepted by the reader loop only between two events (see below)
+	barrier := make(chan struct{})
+	evIdx := map[int]int{}
+	c.Before = func(r *fakecluster.Req) {
+		if !r.Mutating {
+			return
+		}
+		// every event sent before this request has been recorded once the reader accepts the barrier
+		select {
+		case barrier <- struct{}{}:
+		case <-stop:
+		case <-time.After(5 * time.Second):
+		}
+		mu.Lock()
+		evIdx[r.MutIdx] = len(out.Events)
+		mu.Unlock()
+		if r.MutIdx == cancelMut {
+			cancel()
+			time.Sleep(20 * time.Millisecond) // let the runner observe the cancellation while the request is in flight
 		}
 	}
 	c.After = func(r *fakecluster.Req) {
 		if r.Mutating {
 			s := takeSnapshot(c)
 			mu.Lock()
-			out.Snaps = append(out.Snaps, s)
-			out.Muts = append(out.Muts, []any{r.Verb, jidOfKey(r.Key), r.DryRun, r.PrecondUID, r.Propagation, r.Result, r.Rejected, s})
+			out.Muts = append(out.Muts, []any{r.Verb, jidOfKey(r.Key), r.DryRun, r.PrecondUID, r.Propagation, r.Result, r.Rejected, evIdx[r.MutIdx], s})
 			mu.Unlock()
 		}
 	}
@@ -587,7 +615,6 @@ func runOne(c *fakecluster.Cluster, run sysRun) (out runOut) {
 	var wg sync.WaitGroup
 	// barrier: accepted by the reader loop only between two events, so after a fence (the runner has sent everything the
 	// previous status event caused) + a barrier the bookkeeping below is up to date
-	barrier := make(chan struct{})
 	sync2 := func() bool {
 		if !sw.fence(stop) {
 			return false
